@@ -1472,7 +1472,9 @@ func gsxFingerprint(fset *token.FileSet, f *ast.File) string {
 			b = append(b, ')')
 			return true
 		}
-		b = append(b, fmt.Sprintf("(%T@%d-%d", n, n.Pos(), n.End())...)
+		// the node's address is part of the fingerprint: replacing a node by an equal-looking
+		// copy is a write to the tree too
+		b = append(b, fmt.Sprintf("(%T@%d-%d#%p", n, n.Pos(), n.End(), n)...)
 		switch x := n.(type) {
 		case *ast.Ident:
 			b = append(b, x.Name...)
